@@ -42,7 +42,7 @@ RECURSIVE DigitsVal(_)
 DigitsVal(s) == IF s = <<>> THEN 0 ELSE DigitsVal(SubSeq(s, 1, Len(s) - 1)) * 10 + (s[Len(s)] - 48)
 RECURSIVE Pow10(_)
 Pow10(n) == IF n = 0 THEN 1 ELSE 10 * Pow10(n - 1)
-ParseNum(s) ==
+ParseDec(s) ==
     LET neg  == s # <<>> /\ s[1] = 45
         body == IF neg THEN Tail(s) ELSE s
         dots == {i \in DOMAIN body : body[i] = 46}
@@ -53,6 +53,18 @@ ParseNum(s) ==
                 /\ \A i \in DOMAIN body : i \in dots \/ IsDigit(body[i])
         mag  == Rat(DigitsVal(ip) * Pow10(Len(fp)) + DigitsVal(fp), Pow10(Len(fp)))
     IN  IF ~ok THEN Err ELSE IF neg THEN RNeg(mag) ELSE mag
+\* ... optionally followed by e+XX (the form %v prints from 1e+06 on)
+ParseNum(s) ==
+    LET es == {i \in DOMAIN s : s[i] = 101}
+    IN  IF es = {} THEN ParseDec(s)
+        ELSE LET e  == CHOOSE i \in es : TRUE
+                 m  == ParseDec(SubSeq(s, 1, e - 1))
+                 xs == SubSeq(s, e + 2, Len(s))
+             IN  IF Cardinality(es) # 1 \/ IsErr(m) \/ e + 1 > Len(s) \/ s[e + 1] # 43 \/ xs = <<>>
+                    \/ (\E i \in DOMAIN xs : ~IsDigit(xs[i])) \/ DigitsVal(xs) > 8 THEN Err
+                 ELSE LET p == Pow10(DigitsVal(xs))
+                          g == GCD(m.d, p)           \* cancel first: TLC integers are 32-bit
+                      IN  Rat(m.n * (p \div g), m.d \div g)
 
 IsIntegral(v) == IsNum(v) /\ v.d = 1
 
